@@ -129,8 +129,8 @@ func (o *Org) ConstInt() (int64, bool) {
 // Resolver computes origins. Env optionally binds parameters of inlined
 // callees to caller origins.
 type Resolver struct {
-	P     *Prog
-	Env   map[ssa.Value]*Org
+	P   *Prog
+	Env map[ssa.Value]*Org
 	// Site: for a callee whose parameters are bound in Env, the call
 	// instruction in the caller (lets analyses continue in the caller).
 	Site  map[*ssa.Function]ssa.Instruction
@@ -657,7 +657,6 @@ func (r *Resolver) Bind(fn *ssa.Function, site ssa.CallInstruction) *Resolver {
 	return nr
 }
 
-
 // carrierPathValue: addr is a field path on a struct that was built as a
 // literal (each field written exactly once, at construction, and the field
 // of that struct type written nowhere else in the repository): the value
@@ -847,7 +846,6 @@ func (p *Prog) fieldOnlyInitialised(nt *types.Named, idx int) bool {
 	return ok
 }
 
-
 // fieldLateStore: a store to field idx of nt that does not address a struct
 // allocated in the same function (nil when fieldOnlyInitialised).
 func (p *Prog) fieldLateStore(nt *types.Named, idx int) ssa.Instruction {
@@ -919,7 +917,6 @@ func Deref(o *Org, depth int) []*Org {
 	}
 	return out
 }
-
 
 // globalFieldValue: addr is a field path on a package-level struct variable
 // that is assigned exactly once, in the package initialiser, and never
@@ -1007,7 +1004,6 @@ func (r *Resolver) globalFieldValue(addr ssa.Value) (ssa.Value, *Resolver) {
 	}
 	return nil, nil
 }
-
 
 // structCallField: base is the struct value returned (by value) by a
 // repository helper that builds it as a literal: the origin of the value
